@@ -213,6 +213,14 @@ Arguments s_pref {priv dkey}. Arguments s_log {priv dkey}.
 Arguments mkApplied {priv dkey}. Arguments a_random {priv dkey}. Arguments a_sid {priv dkey}.
 Arguments a_shares {priv dkey}. Arguments a_keys {priv dkey}. Arguments a_log {priv dkey}. Arguments a_end {priv dkey}.
 
+(* ---- importing a captured hello (Fingerprinter / ClientHelloSpec.FromRaw): u_tls_extensions.go:1268-1295
+        KeyShareExtension.Write. A GREASE entry becomes the placeholder and keeps its data, every other entry loses its
+        key_exchange: it is generated per connection by ApplyPreset. ---- *)
+Definition GREASE_PLACEHOLDER : N := 2570.
+Definition import_share (k : kshare) : kshare :=
+  if is_grease (ks_group k) then mkKS GREASE_PLACEHOLDER (ks_data k) else mkKS (ks_group k) [].
+Definition import_shares (wire : list kshare) : list kshare := map import_share wire.
+
 (* a share the loop generates a key for *)
 Definition generated (k : kshare) : bool := negb (is_grease (ks_group k)) && negb (1 <? lenN (ks_data k)).
 
